@@ -14,6 +14,7 @@ import warnings
 from datetime import datetime, timedelta, timezone
 from typing import Any, Dict, Iterator, List, Optional, Tuple
 
+import core
 from core import Case, Prop, SelfCheckFailure, InfraError
 from gen import hx, unhx, rbytes
 
@@ -66,6 +67,22 @@ def _stamp_payload(s) -> Dict[str, Any]:
     return {"days": d, "ms": ms, "unix_ms": _nearest(s.as_unix_seconds(), 1000), "dt_us": _dt_us(dt)}
 
 
+def _stamp_view(s) -> Dict[str, Any]:
+    """cheap pure view of a stamp (no pack()) for the isolation probe: fields and both time views"""
+    return {"days": int(s.ccsds_days), "ms": int(s.ms_of_day), "unix": float(s.as_unix_seconds()),
+            "dt": _dt_view(s).isoformat()}
+
+
+def _packed_form(s, what: str) -> bytes:
+    """pack() (twice, the caller modifying the first returned buffer in between) is P-field, day, millisecond of
+    the stamp's own fields"""
+    raw = core.pack_stable(s, what)
+    d, ms = int(s.ccsds_days), int(s.ms_of_day)
+    if 0 <= d <= MAX_DAYS and 0 <= ms < (1 << 32) and raw != _raw(0x40, d, ms):
+        raise SelfCheckFailure(f"{what} = {raw.hex()} is not 0x40 | day {d} | ms {ms}")
+    return raw
+
+
 def op_cds_new(a):
     s = CdsShortTimestamp(a["days"], a["ms"])
     if int(s.len_packed) != 7:
@@ -77,12 +94,13 @@ def op_cds_new(a):
 
 def op_cds_pack(a):
     s = CdsShortTimestamp(a["days"], a["ms"])
-    raw = bytes(s.pack())
+    raw = core.pack_stable(s, "CdsShortTimestamp.pack()")
     if len(raw) != int(s.len_packed):
         raise SelfCheckFailure("len(pack()) != len_packed")
     if bytes(s.pfield) != raw[:1]:
         raise SelfCheckFailure("pfield property differs from the packed P-field")
     s2 = CdsShortTimestamp.unpack(raw)
+    _ISO.check("CdsShortTimestamp", s2, _stamp_view)
     if not (s2 == s) or (int(s2.ccsds_days), int(s2.ms_of_day)) != (a["days"], a["ms"]):
         raise SelfCheckFailure("unpack(pack(s)) != s")
     return {"raw": hx(raw)}
@@ -91,15 +109,21 @@ def op_cds_pack(a):
 def op_cds_unpack(a):
     raw = unhx(a["raw"])
     s = CdsShortTimestamp.unpack(raw)
+    # stamps decoded by earlier calls must still show what they showed then
+    _ISO.check("CdsShortTimestamp", s, _stamp_view)
     d, ms = CdsShortTimestamp.unpack_from_raw(raw)
     if (int(d), int(ms)) != (int(s.ccsds_days), int(s.ms_of_day)):
         raise SelfCheckFailure("unpack_from_raw and unpack disagree")
     e = CdsShortTimestamp.empty()
+    e.pack()    # a stamp that was packed before it is re-read must not keep its old packed form
     e.read_from_raw(raw)
     if not (e == s):
         raise SelfCheckFailure("read_from_raw and unpack disagree")
-    if raw[0] == 0x40 and bytes(s.pack()) != raw[:7]:
+    packed = _packed_form(s, "pack() of a decoded stamp")
+    if raw[0] == 0x40 and packed != raw[:7]:
         raise SelfCheckFailure("pack(unpack(b)) != b[:7]")
+    if bytes(e.pack()) != packed:
+        raise SelfCheckFailure("pack() after read_from_raw differs from pack() of the stamp unpack returns")
     return _stamp_payload(s)
 
 
@@ -118,7 +142,9 @@ def op_cds_add(a):
     if (td.days, td.seconds, td.microseconds) != (a["td_days"], a["td_s"], a["td_us"]):
         raise InfraError(f"generator produced a non-normalised timedelta: {a}")
     s = CdsShortTimestamp(a["days"], a["ms"])
+    s.pack()    # a stamp that was packed before the addition: the sum must not keep the old packed form
     r = s + td
+    _packed_form(r, "pack() of stamp + timedelta")
     return _stamp_payload(r)
 
 
@@ -129,6 +155,9 @@ def op_cds_day_offsets(a):
             "unix": int(tcommon.convert_ccsds_days_to_unix_days(d)),
             "fud_days": int(s.ccsds_days), "fud_ms": int(s.ms_of_day)}
 
+
+# the day / millisecond sweeps decode ~150 000 stamps: they look back one object only (run time)
+_ISO = core.Isolation(keep=1)
 
 OPS = {
     "cds_new": op_cds_new, "cds_pack": op_cds_pack, "cds_unpack": op_cds_unpack,
@@ -319,6 +348,15 @@ class C14(Prop):
             yield Case({"op": "cds_new", "days": d, "ms": ms}, "valid", tag="random")
             if i % 3 == 0:
                 yield Case({"op": "cds_pack", "days": d, "ms": ms}, "valid", tag="random")
+        # --- back-to-back decodes of stamps that differ in every field bit (a stamp decoded earlier must not follow a
+        #     later decode), interleaved with encodes ------------------------------------------------------------
+        for _ in range(300 * mult):
+            d, ms = rdays(), rms()
+            d2, ms2 = d ^ 0xFFFF, (ms ^ 0x7FFFFFF) % MS
+            yield Case({"op": "cds_unpack", "raw": hx(_raw(0x40, d, ms))}, "valid", tag="complement-pair")
+            yield Case({"op": "cds_unpack", "raw": hx(_raw(0x40, d2, ms2) + _suffix(rng))}, "valid", tag="complement-pair")
+            yield Case({"op": "cds_pack", "days": d, "ms": ms}, "valid", tag="complement-pair")
+            yield Case({"op": "cds_pack", "days": d2, "ms": ms2}, "valid", tag="complement-pair")
         # --- day offsets ----------------------------------------------------------------------------
         for d in [-4383, -4382, -1, 0, 1, 4382, 4383, 4384, 61151, 61152] + [rng.randint(-4383, 61152) for _ in range(200 * mult)]:
             yield Case({"op": "cds_day_offsets", "d": d, "ms": rms()}, "valid", tag="day-offsets")
